@@ -25,7 +25,7 @@ def run(tier, seed, replay=None):
     events = sum(len(r) for r in traces.values())
     chk.samples += [{'history': s['name'], 'machine': s['_machine']['name'], 'config': s['config'], 'first_events': [e['op'] for e in s['events'][:12]]} for s in scripts[:2]]
     return chk.finish(
-        rule='random structured NRI histories under random balloon-type configurations (min/max CPUs and balloons, namespaces, match expressions, groupBy, preferNew/Spreading/PerNamespace, shareIdleCPUsInSame, hideHyperthreads, cpuClass, reserved/available sets) on 8 synthetic machines; '
+        rule='random structured NRI histories under random balloon-type configurations (min/max CPUs and balloons, namespaces, match expressions, groupBy, preferNew/Spreading/PerNamespace, shareIdleCPUsInSame, hideHyperthreads, cpuClass, reserved/available sets) on 10 synthetic machines (the corpus of recorded histories is replayed first, 3 copies each); '
              'non-trivial = >=2 live containers at once, >=1 inflated balloon with members, >=1 release and >=1 request that changed another container',
         evaluations=events, distinct=nt, traces=stats['traces'],
         extra_cov={'histories': len(traces), 'events': events, 'model_ops': dict(stats),
